@@ -19,7 +19,7 @@ LEVELS = {p: "exploration" for p in PROPS}
 MIX: Dict[str, List[str]] = {
     "C01": ["random", "random", "feesliq", "margin", "cross", "precision", "micro_c07"],
     "C02": ["random", "margin", "margin", "feesliq", "cross", "precision", "micro_c07", "micro_c08"],
-    "C04": ["ample", "ample", "feesliq", "random", "precision", "micro_c04", "micro_c04"],
+    "C04": ["ample", "ample", "feesliq", "random", "precision", "micro_c04", "micro_c04b", "micro_c04b", "micro_c04c"],
     "C05": ["random", "feesliq", "ample", "long", "margin"],
     "C06": ["random", "margin", "margin", "feesliq", "precision", "micro_c06", "micro_c06"],
     "C07": ["random", "margin", "margin", "cross", "feesliq", "micro_c07"],
@@ -34,7 +34,7 @@ QUICK_CASES = {"C05": 35, "C04": 60, "C06": 90}
 
 def plan(prop: str, tier: str) -> Plan:
     if tier == "quick":
-        return Plan(shards=4, cases_per_shard=QUICK_CASES.get(prop, 80), timeout_s=600)
+        return Plan(shards=8, cases_per_shard=QUICK_CASES.get(prop, 80), timeout_s=600)
     return Plan(shards=16, cases_per_shard={"C05": 350}.get(prop, 1200), timeout_s=3000)
 
 
